@@ -174,7 +174,31 @@ func tagOf(m cemi.Message) int {
 // inMsg: the routing indication injected for telegram `tag`. On a raw router client a fraction of them carry a
 // confirmation or a request (a function of the tag): every cEMI message is handed to the application alike; the
 // group layer surfaces indications only, so group plans stick to those.
+// vary gives the telegram for `tag` header fields that depend on the tag: all four priorities (system priority among
+// them), both repeat flags, hop counts 0..7, different senders. Order, delivery and acknowledgement do not depend on them.
+func vary(l *cemi.LData, tag int) {
+	l.Control1 = cemi.Control1StdFrame | cemi.Control1NoSysBroadcast | cemi.Control1Prio(cemi.Priority(tag%4))
+	if tag%3 != 0 {
+		l.Control1 |= cemi.Control1NoRepeat
+	}
+	l.Control2 = cemi.Control2GroupAddr | cemi.Control2Hops(uint8(tag%8))
+	l.Source = cemi.NewIndividualAddr3(1, 1, uint8(tag%250+1))
+}
+
 func inMsg(tag int, group bool) cemi.Message {
+	m := inMsgPlain(tag, group)
+	switch v := m.(type) {
+	case *cemi.LDataInd:
+		vary(&v.LData, tag)
+	case *cemi.LDataCon:
+		vary(&v.LData, tag)
+	case *cemi.LDataReq:
+		vary(&v.LData, tag)
+	}
+	return m
+}
+
+func inMsgPlain(tag int, group bool) cemi.Message {
 	switch {
 	case group:
 		return indMsg(tag)
